@@ -3,6 +3,7 @@ C13 — parallel execution is observationally equivalent to serial execution.
 Model: HypnoModel/Model/ParMap.lean (tied to hypnotoad/utils/parallel_map.py by py/props/c13.py:
 forced completion orders, failing tasks at every position, watchdog for hangs).
 -/
+import HypnoModel.Props.C13Pipe
 import HypnoModel.Model.ParMap
 
 namespace HypnoModel.Props.C13
